@@ -948,6 +948,12 @@ def _restore_stdin(saved):
 
 def child_main(root: str, ops: list, seed: int, opts: dict | None = None) -> dict:
     opts = opts or {}
+    # the same stack headroom as a fresh interpreter has when it calls into the library, wherever in the
+    # harness this child was forked from (a rule nested close to the recursion limit must not depend on that)
+    depth, fr = 0, sys._getframe()
+    while fr is not None:
+        depth, fr = depth + 1, fr.f_back
+    sys.setrecursionlimit(1000 + depth - 3)
     sim = Sim(root, seed)
     os.chdir(sim.root)
     sink = io.StringIO()
